@@ -3,10 +3,11 @@ PROP = {
     "technique": ("runtime monitors: (1) lattice run of the real LinearFeeFunction with per-call invariants; (2) real "
                   "TxPublisher driven block by block with a recording wallet that judges every transaction handed to "
                   "testmempoolaccept / publish against exact integer re-computation of fee, weight, dust and budget; "
-                  "(3) real UtxoSweeper round (updateSweeperInputs / sweepPendingInputs / sweep) over the real "
-                  "BudgetAggregator in front of the real TxPublisher: the fee function and every transaction of a "
-                  "regrouped request are judged against the rate each of its inputs was already offered at and the "
-                  "budgets attached to the inputs"),
+                  "(3) real UtxoSweeper (block handler, monitorFeeBumpResult, handleBumpEvent and its handlers) over the "
+                  "real BudgetAggregator in a loop with the real TxPublisher over several blocks, faults injected at "
+                  "the wallet/mempool boundary: the fee function and every transaction of every (re)grouped request "
+                  "are judged against the rate each of its inputs was last offered at and the budgets attached to "
+                  "the inputs"),
     "level_text": ("Fee function: 4e5 (quick) / 1e8 (thorough) generated (ending rate, conf target 0..3000, estimator "
                    "answer incl. below floor / above max / error, explicit start, block pattern) runs; after every "
                    "Increment/IncreaseFeeRate: never decreases, never above the ending rate, start >= relay floor, "
@@ -15,18 +16,29 @@ PROP = {
                    "mempool/publish answers, skipped/repeated heights, third-party/own spends); every tx handed to the "
                    "wallet: fee <= budget, fee*1000 <= MaxFeeRate*weight(signed tx), all inputs exactly once, no output "
                    "below dust, published replacements non-decreasing in fee rate, fee function at its ceiling from "
-                   "deadline-1 on. Regroup: 4e4 / 4e6 generated populations of 2-10 pending inputs (1-3 deadlines, "
+                   "deadline-1 on. Regroup: 3e4 / 3e6 generated populations of 1-9 pending inputs (1-3 deadlines, "
                    "mixed budgets, Immediate, locktimes, exclusive groups, required outputs, no-deadline params, "
-                   "MaxInputsPerTx 2..100, wallet utxos; about half the inputs carry the rate of an earlier attempt, "
-                   "recorded through the sweeper's own markInputsPublishFailed or set like mempool RBFInfo) swept by one "
-                   "real sweeper round and then taken to deadline-1 and the deadline; for every input already offered "
-                   "at r: the new request's fee function and every tx spending it offer >= min(r, ceiling of the request); "
-                   "every tx: fee <= sum of the budgets of the inputs it spends, all inputs of the request exactly once."),
+                   "MaxInputsPerTx 2..100, wallet utxos, inputs arriving in later blocks; about half the inputs carry "
+                   "the rate of an earlier attempt, recorded through the sweeper's own markInputsPublishFailed or set "
+                   "like mempool RBFInfo) driven for 6-20 blocks (every block, skipped heights, on to the deadlines) "
+                   "in lnd's consumer order sweeper -> publisher, every BumpResult going through monitorFeeBumpResult "
+                   "and handleBumpEvent; scripted CheckMempoolAcceptance / PublishTransaction answers (insufficient "
+                   "fee, min relay / mempool min fee, mempool fee, missing inputs with and without a third-party "
+                   "spend, not implemented, generic), third-party spends between blocks; for every input the rates "
+                   "of the txs handed to the wallet (and of each fresh fee function) never fall below "
+                   "min(previous rate, ceiling of the request); every tx: fee <= sum of the budgets of the inputs "
+                   "it spends, all inputs of the request exactly once."),
     "level_note": ("Sampled. Inputs are harness inputs with real StandardWitnessTypes whose witnesses are crafted at the "
                    "type's size upper bound (worst-case signatures), so the signed weight equals lnd's estimate; shorter "
-                   "real signatures raise the effective rate by <1% and are not modelled. The sweeper's grouping path is "
-                   "driven for one round per population (states as left by a failed publish are generated, the result "
-                   "loop publisher -> sweeper -> regroup over several rounds is not). The ceiling of a regrouped request "
+                   "real signatures raise the effective rate by <1% and are not modelled. The sweeper is driven "
+                   "synchronously (its collector goroutine is replaced by the harness calling the same handlers in the "
+                   "same order; handleNewInput / the spend-notification path / confirmations of own sweeps are not "
+                   "driven: inputs are put into the pending map, third-party spends reach it through the publisher). "
+                   "Groupings inside lnd follow Go map iteration and an unstable sort, so counters vary by ~0.01% "
+                   "between runs of one seed; verdicts are per-request invariants. Two fingerprint classes of "
+                   "regroup_feerate_monotone (key suffixes +carried-rate-wiped-by-txfailed-without-fee-rate, "
+                   "+carried-rate-lowered-by-failed-result) are reported at most 3 times per process each, the rest "
+                   "is counted (regroup_decrease_*). The ceiling of a regrouped request "
                    "uses a BIP-141 weight model written in the harness (calibrated as a diagnostic against every tx "
                    "built) with 8 wu + 1 sat/kw slack. CPFP parents are not generated (the bumper's fee ignores them)."),
     "design_ref": "DESIGN.md §3 C18",
@@ -35,8 +47,9 @@ PROP = {
              "#required outputs, via input set, wallet top-up, #published bucket, #replaced, #failed, #unknown-spend, "
              "change script type, aux output); regroup: a population is non-trivial when the sweeper built at least "
              "one request; distinct (#inputs bucket, #requests, MaxInputsPerTx, request mixing different earlier "
-             "rates, earlier rate above the ceiling, wallet top-up, locktimes, exclusive, immediate, #requests with "
-             "tx bucket, #failed)."),
+             "rates, earlier rate above the ceiling, wallet top-up, locktimes, exclusive, immediate, late arrivals, "
+             "#requests with tx bucket, buckets of #failed / #fatal / #unknown-spend / #replaced results, #later-round "
+             "requests bucket)."),
     "assumptions": [
         "required outputs / aux outputs supplied by the caller are themselves not dust",
         "witnesses have the size upper bound of their witness type",
@@ -76,18 +89,31 @@ PROP = {
             "files": ["sweep/c18_test.go"],
             "shards": {"quick": 8, "thorough": 16},
             "floors": {
-                "quick": {"cases": 20000, "regroup_requests": 50000, "regroup_requests_multi_input": 23000,
-                          "regroup_requests_mixed_last_offered": 6500, "regroup_requests_with_tx": 43000,
-                          "regroup_requests_with_wallet_topup": 7000, "regroup_inputs_marked_publish_failed": 47000,
-                          "regroup_fee_functions": 50000, "oracle_regroup_monotone_evals": 490000,
-                          "regroup_monotone_ceiling_corner_evals": 30000, "oracle_regroup_budget_evals": 300000,
+                "quick": {"cases": 15000, "regroup_blocks": 165000, "regroup_requests": 90000,
+                          "regroup_requests_in_later_rounds": 60000, "regroup_requests_with_retried_input": 53000,
+                          "regroup_requests_multi_input": 22000, "regroup_requests_mixed_last_offered": 3500,
+                          "regroup_requests_with_tx": 55000, "regroup_requests_with_wallet_topup": 12000,
+                          "regroup_inputs_marked_publish_failed": 29000, "regroup_fee_functions": 90000,
+                          "regroup_txs_of_later_rounds": 125000,
+                          "regroup_results_Published": 42000, "regroup_results_Replaced": 74000,
+                          "regroup_results_Failed": 55000, "regroup_results_TxFailed_without_fee_rate": 16000,
+                          "regroup_results_UnknownSpend": 3600, "regroup_results_Fatal": 2000,
+                          "oracle_regroup_monotone_evals": 490000, "oracle_regroup_monotone_over_time_evals": 440000,
+                          "regroup_monotone_ceiling_corner_evals": 24000, "oracle_regroup_budget_evals": 300000,
                           "oracle_regroup_inputs_evals": 300000},
-                "thorough": {"cases": 2000000, "regroup_requests": 5000000, "regroup_requests_multi_input": 2300000,
-                             "regroup_requests_mixed_last_offered": 650000, "regroup_requests_with_tx": 4300000,
-                             "regroup_requests_with_wallet_topup": 700000,
-                             "regroup_inputs_marked_publish_failed": 4700000, "regroup_fee_functions": 5000000,
+                "thorough": {"cases": 1500000, "regroup_blocks": 16500000, "regroup_requests": 9000000,
+                             "regroup_requests_in_later_rounds": 6000000,
+                             "regroup_requests_with_retried_input": 5300000,
+                             "regroup_requests_multi_input": 2200000, "regroup_requests_mixed_last_offered": 350000,
+                             "regroup_requests_with_tx": 5500000, "regroup_requests_with_wallet_topup": 1200000,
+                             "regroup_inputs_marked_publish_failed": 2900000, "regroup_fee_functions": 9000000,
+                             "regroup_txs_of_later_rounds": 12500000,
+                             "regroup_results_Published": 4200000, "regroup_results_Replaced": 7400000,
+                             "regroup_results_Failed": 5500000, "regroup_results_TxFailed_without_fee_rate": 1600000,
+                             "regroup_results_UnknownSpend": 360000, "regroup_results_Fatal": 200000,
                              "oracle_regroup_monotone_evals": 49000000,
-                             "regroup_monotone_ceiling_corner_evals": 3000000,
+                             "oracle_regroup_monotone_over_time_evals": 44000000,
+                             "regroup_monotone_ceiling_corner_evals": 2400000,
                              "oracle_regroup_budget_evals": 30000000, "oracle_regroup_inputs_evals": 30000000},
             },
         },
